@@ -40,6 +40,21 @@ class Mods:
     pass
 
 
+class _NoTimer:
+    def __init__(self, *a, **k):
+        pass
+
+    def start(self):
+        pass
+
+    def cancel(self):
+        pass
+
+
+class _NoThreading:
+    Timer = _NoTimer
+
+
 def repo_path():
     return os.environ.get('HEPH_REPO', '/repo')
 
@@ -79,6 +94,10 @@ def load(repo=None):
     M.te = importlib.import_module('src.transformations.type_erasure')
     M.to = importlib.import_module('src.transformations.type_overwriting')
     M.tda = importlib.import_module('src.analysis.type_dependency_analysis')
+    # the 600 s watchdog of visit_program starts one thread per run; it never fires here and thread start latency
+    # dominates small programs on a loaded machine, so the harness gives the module an inert Timer
+    M.base = importlib.import_module('src.transformations.base')
+    M.base.threading = _NoThreading
     M.builtins = importlib.import_module('src.ir').BUILTIN_FACTORIES
     M.translators = {
         'java': importlib.import_module('src.translators.java').JavaTranslator,
@@ -1680,7 +1699,7 @@ def judge_overwrite(M, before, after, text0, text1, t, program_after):
     # unrelated, not assignable either way
     if old_t is not None and new_t is not None:
         try:
-            rel = _related(M, o, old_t, new_t)
+            rel = _related(M, o, old_t, new_t, conversions=kind in ('variable', 'function'))
             info['unrelated'] = rel is None
             if rel is not None:
                 viol.append(('unrelated', dict(old=old_s, new=new_s, relation=rel, where=opath,
@@ -1727,7 +1746,7 @@ def _first_diff(a, b):
     return 'length %d -> %d' % (len(a), len(b))
 
 
-def _related(M, o, old_t, new_t):
+def _related(M, o, old_t, new_t, conversions=True):
     """None if the two types are unrelated; else a description of the relation (declarative, by the class table)"""
     tp = M.tp
     if isinstance(old_t, tp.WildCardType) or isinstance(new_t, tp.WildCardType):
@@ -1753,6 +1772,8 @@ def _related(M, o, old_t, new_t):
         return 'new type is a subtype of the replaced type' + (' (its bound)' if eff is not old_t else '')
     if o.sub(a, b, env):
         return 'new type is a supertype of the replaced type' + (' (its bound)' if eff is not old_t else '')
+    if not conversions:
+        return None                 # type arguments are matched invariantly: assignment conversions do not apply
     if o.assignable(eff, new_t, env):
         return 'a value of the replaced type is assignable to the new type (%s conversion)' % o.lang
     if o.assignable(new_t, eff, env):
@@ -1920,8 +1941,10 @@ def hand_programs(M, lang):
     return out
 
 
+# 'shared_type_object' (two constructor calls sharing ONE type object) is buildable but not in the fixed list: the
+# generator never aliases the type object of a constructor call (scanned), so it is outside the properties' domain
 HAND = ['decl_vs_new', 'ctor_arg', 'recursion', 'subtype_init', 'generic_call', 'generic_super', 'field_init',
-        'two_params', 'ret_block', 'call_arg', 'dup_targs', 'shared_type_object', 'conditional_init']
+        'two_params', 'ret_block', 'call_arg', 'dup_targs', 'conditional_init']
 HAND = HAND + [h + '_long' for h in HAND]
 
 
@@ -2223,7 +2246,7 @@ def run(tier, seed, stop_first=False, prop='C03', workers=None):
     nprog = len([r for r in results if r is not None and not r['skipped']])
     if prop == 'C03':
         why = agg.pop('why', {})
-        rule = ('%d programs (13 hand-built scenarios x 2 element types x 4 languages; generator seeds %s per language, chosen by generation '
+        rule = ('%d programs (12 hand-built scenarios x 2 element types x 4 languages; generator seeds %s per language, chosen by generation '
                 'cost only%s) x enumeration orders of equally large candidate sets (natural + VERIF_SEED-derived), each '
                 'run through the real TypeErasure on a deep copy. Per run: (1) structural snapshot of every attribute of '
                 'every node, of the symbol table and of every recorded type before/after - only VariableDeclaration.var_type '
@@ -2243,7 +2266,7 @@ def run(tier, seed, stop_first=False, prop='C03', workers=None):
                    agg.get('ret', 0), agg.get('new', 0), agg.get('call', 0), agg.get('ok', 0), agg.get('violation', 0),
                    agg.get('undecided', 0), ', '.join('%s x%d' % kv for kv in sorted(why.items(), key=lambda kv: -kv[1])[:4])))
     else:
-        rule = ('%d programs (13 hand-built scenarios x 2 element types x 4 languages; generator seeds %s per language%s), each both as '
+        rule = ('%d programs (12 hand-built scenarios x 2 element types x 4 languages; generator seeds %s per language%s), each both as '
                 'generated and after TypeErasure, x RNG seeds of the mutation (fixed + VERIF_SEED-derived), run through the '
                 'real TypeOverwriting on a deep copy. When an injection is reported (%d runs): structural diff = exactly '
                 'one declaration\'s declared+recorded type or exactly one explicit type argument (kinds: %s); new type '
